@@ -316,6 +316,37 @@ func C05(c *Ctx) {
 	r.Rule("R05.4", "a group leaves the timeout list only when it ends: every removeFromTimeoutList of the transaction manager is preceded on every path by a change of the group's global state (a store to GlobalState or setFSM(&txInfo.GlobalState, ..)); a group whose state is still BEGIN stays listed, otherwise it never times out and its finished children are never rolled back.")
 	r.Rule("R05.5", "who is told to roll back is decided on the stored statuses: in processExecuteEvent getTimeoutIBTPsMap - which puts a destination chain into the timeout notification only when its child already reached a final status - runs before setTimeoutRollback overwrites every child with BEGIN_ROLLBACK; in the other order no destination chain of a timed-out group is notified and succeeded children are never rolled back (shared with C06 R06.10).")
 	c.expiryReadBeforeOverwrite("R05.5")
+	r.Rule("R05.6", "a group belongs to its source: the global id of a one-to-many transaction (genGlobalTxID) is the hash of the source service id (ibtp.From) and the declared destination -> index map; without the source two services that declare the same map share one group record, and children of one complete, fail or time out the other's group.")
+	if gg := c.fn("R05.6", "internal/executor/contracts.genGlobalTxID"); gg != nil {
+		fields, _, nh := preimageFields(gg, func(call ssa.CallInstruction) bool {
+			return strings.HasSuffix(core.CalleeName(call), "sha256.Sum256")
+		})
+		r.Floor("R05.6", "hash calls in genGlobalTxID", nh, 1)
+		var missing []string
+		if !fields["From"] {
+			missing = append(missing, "ibtp.From")
+		}
+		// the declared children: a map filled from Group.Keys / Group.Vals that flows into the preimage
+		mapOK := false
+		for _, b := range gg.Blocks {
+			for _, in := range b.Instrs {
+				mu, ok := in.(*ssa.MapUpdate)
+				if !ok || !core.Mentions(mu.Key, fieldNamed("Keys")) || !core.Mentions(mu.Value, fieldNamed("Vals")) {
+					continue
+				}
+				for _, call := range core.Calls(gg) {
+					if strings.HasSuffix(core.CalleeName(call), "sha256.Sum256") && core.Mentions(call.Common().Args[0], func(v ssa.Value) bool { return v == core.Strip(mu.Map) }) {
+						mapOK = true
+					}
+				}
+			}
+		}
+		if !mapOK {
+			missing = append(missing, "the destination -> index map (Group.Keys / Group.Vals)")
+		}
+		r.Check(len(missing) == 0, "R05.6", "genGlobalTxID: the group id covers the source and the declared children", c.P.Pos(gg.Pos()), "ibtp.From and the Group map flow into the sha256 preimage",
+			"the global id no longer depends on "+strings.Join(missing, ", ")+": groups of different sources (or with different children) collapse into one record - a child of one group counts for the other, and a failure or timeout of one rolls the other back")
+	}
 	nRem := 0
 	isGlobalChange := func(in ssa.Instruction) bool {
 		if storesToField("TransactionInfo", "GlobalState")(in) {
